@@ -316,10 +316,16 @@ func checkC08(c *core.Ctx, r *core.Report) {
 		"(5) HELD — the open compressor of a series is copied for a query only with the series lock held; " +
 		"(6) CURSOR — the rotated-block reader moves the cursor that narrows its next search of the series offset table only after a lookup that found its series; " +
 		"(7) ORDER (shared with C10) — when a block is rotated, the next block's WAL file is created after the block number advanced (recovery re-flushes the block number found in the file name, so a WAL created too early makes a restart overwrite the rotated block); " +
+		"(8) LENPREFIX — in the metrics writer every length prefix written to a buffer is len() of exactly the value written next; " +
+		"(9) COUNT16 — every 16-bit narrowing of a length or count in the tags tree encoder lies where the value is known to be at most 65535; " +
+		"(10) REDIRECT — SearchUnrotatedMetricsBlock decides the re-direction of a since-rotated block to the on-disk search before it can return for any reason concerning the new in-memory block; " +
 		"(3) LIVE — a scratch bytes.Buffer that is declared outside a loop, filled inside it and Reset on some path of the iteration is Reset on every path to the next iteration (leftover bytes of one series would be decoded as part of the next)."
 	r.NotCovered = "TSID hashing and collisions, tags-tree contents, rotation/restart behaviour, the series-file layout, value equality in general"
 
 	c08Cursor(c, r)
+	c08LenPrefix(c, r)
+	c08Count16(c, r)
+	c08Redirect(c, r, lockAnalysis(c))
 	checkWalAfterBlockNumber(c, r, newSummaries(c))
 
 	writeBits := c.Obj(pkgCompress, "bitWriter.writeBits")
